@@ -72,22 +72,22 @@ type Engine struct {
 }
 
 type Interp struct {
-	eng        *Engine
-	pr         *PathRun
-	tt         *TermTable
-	epoch      int32
-	goLeak     bool       // check at harness end that no channel holds more than its buffer
-	chans      []*ChanObj // channels made on this path
-	cow        map[*Cell]Value // path-local overlay over frozen heap cells
-	steps      int
-	stepBudget int
-	entered    map[*ssa.Function]bool
-	depth      int
-	cur        *Frame
-	initMode   bool
-	lastPos    token.Pos
-	mapOrder   bool
-	onceDone   map[*Cell]bool
+	eng          *Engine
+	pr           *PathRun
+	tt           *TermTable
+	epoch        int32
+	goLeak       bool            // check at harness end that no channel holds more than its buffer
+	chans        []*ChanObj      // channels made on this path
+	cow          map[*Cell]Value // path-local overlay over frozen heap cells
+	steps        int
+	stepBudget   int
+	entered      map[*ssa.Function]bool
+	depth        int
+	cur          *Frame
+	initMode     bool
+	lastPos      token.Pos
+	mapOrder     bool
+	onceDone     map[*Cell]bool
 	localGlobals map[*ssa.Global]*Cell // path-local copies of assigned globals
 	bigs         map[*Cell]bigVal      // math/big.Int values (see bigmodel.go)
 }
